@@ -137,7 +137,7 @@ def gen_aeres(repo):
         if t.startswith('not np.all(np.isfinite(') and len(st.body) == 1 and isinstance(st.body[0], ast.Continue) \
                 and not st.orelse:
             finite_guard = 'true'
-        elif t == 'logging.getLogger().isEnabledFor(logging.DEBUG)' and all(_is_logging(s) for s in st.body) \
+        elif t == 'logging.getLogger().isEnabledFor(logging.DEBUG)' and all(_is_logging(s) or isinstance(s, ast.Pass) for s in st.body) \
                 and not st.orelse:
             pass
         else:
